@@ -16,3 +16,13 @@ open IrVerif.Scope
 #print axioms IrVerif.Scope.C03_ext_certificate_decidable
 #print axioms IrVerif.Scope.C03_roundtrip_ext_model
 #print axioms IrVerif.Scope.C03_roundtrip_ext
+#print axioms IrVerif.Scope.C03_bridge_deserialize_partial
+#print axioms IrVerif.Scope.C03_bridge_serialize_partial
+#print axioms IrVerif.Scope.C03_bridge_roundtrip_partial
+#print axioms IrVerif.Scope.C03_bridge_gok
+#print axioms IrVerif.Scope.C03_bridge_serde_partial
+#print axioms IrVerif.Scope.C03_bridge_deserialize
+#print axioms IrVerif.Scope.C03_bridge_serialize
+#print axioms IrVerif.Scope.C03_bridge_roundtrip
+#print axioms IrVerif.Scope.C03_bridge_gok_full
+#print axioms IrVerif.Scope.C03_bridge_serde
